@@ -43,6 +43,9 @@ inductive Atom where
   | notFound              -- `err == state.ErrNotFound` after `st.Get`
   | lsOk                  -- `err == nil` after the RPC `IPFSConnector.PinLsCid`
   | ipfsUnpinned          -- `ips.ToTrackerStatus() == TrackerStatusUnpinned`
+  | pinnedInIpfs          -- `localpis[own mode][cid]` present (localStatus)
+  | incExtra              -- argument of localStatus
+  | fMatch (s : Status)   -- `filter.Match(S)`
   | unknown
   deriving DecidableEq, Repr
 
@@ -54,6 +57,7 @@ inductive Act where
   | pinDefault | pinRecorded | enqueuePin | enqueueUnpin
   | trackNewQ | trackNewRemote | chPin | chUnpin | send | errFull | retErr | clean       -- round 8c: enqueue / Track
   | retEnqueuePin | retEnqueueUnpinCid | getExists | retRecOp | retRecStatus
+  | lookupOwnMode | skip | putInfo | putIpfs                                               -- round 8c: localStatus
   | listAll | forEach | recEntry | appendResp                                            -- round 8c: RecoverAll
   | retOp | addError | retInfo | setStatus (s : Status) | setIpfs | pinLsCid              -- round 8c: Tracker.Status
   | unknown
@@ -381,6 +385,30 @@ def raLoopT (t : Table) (cfg : Cfg) (L : Nat → Option Status) : State → List
       | some (s2, some r) => some (s2, r)
       | some (s2, none) => raLoopT t cfg L s2 rest
       | none => none
+
+/-! ### round 8c: `localStatus`, one pin of the pinset -/
+
+def envLocal (k : Kind) (pinned incExtra : Bool) (fm : Status → Bool) : Atom → Bool
+  | .isMeta => k == .sharded
+  | .isRemote => k == .remote
+  | .pinnedInIpfs => pinned
+  | .incExtra => incExtra
+  | .fMatch s => fm s
+  | _ => false
+
+/-- what one iteration puts in the map: `some none` = nothing (`continue`), `some (some st)` = an entry with that status. The daemon's own
+    entry (`putIpfs`, status pinned: `PinLs` lists pinned items) needs the lookup among the pins of the pin's OWN mode before it. -/
+def execLocal : List Act → Status → Bool → Option (Option Status)
+  | [], _, _ => none
+  | .lookupOwnMode :: r, cur, _ => execLocal r cur true
+  | .setStatus s :: r, _, l => execLocal r s l
+  | .skip :: _, _, _ => some none
+  | .putInfo :: .retVoid :: _, cur, _ => some (some cur)
+  | .putIpfs :: .retVoid :: _, _, true => some (some .pinned)
+  | _, _, _ => none
+
+def localT (t : Table) (k : Kind) (pinned incExtra : Bool) (fm : Status → Bool) : Option (Option Status) :=
+  (firstRow t (envLocal k pinned incExtra fm)).bind (fun a => execLocal a .undefined false)
 
 def allStatuses : List Status :=
   [.pinned, .pinning, .pinQueued, .pinError, .unpinned, .unpinning, .unpinQueued, .unpinError,
